@@ -305,7 +305,7 @@ func TestC14Sequential(t *testing.T) {
 	r := NewRun(t, "C14", "sequential")
 	r.Rule = "request histories against a real witness over a log with two forks: old/new size pairs around the recorded size, proofs {correct, empty, flipped, truncated, extended, of the fork}, signatures {valid, corrupted, unknown key, other origin}, malformed bodies, restarts; every status is compared with a sequential reference model (set of statuses of the faults present; 200 only without faults), 200 bodies are verified as cosignatures over the re-encoded checkpoint and the lock store must already hold it; lock history monitor: one chain; distinct = (proof, signature, body, old vs recorded, growth, status)"
 	rng := NewRng(r.Seed, "c14")
-	n := pick(40, 800)
+	n := pick(100, 800)
 	for i := 0; i < n; i++ {
 		hr := rng.Fork(fmt.Sprint(i))
 		if !mine(i) {
@@ -314,7 +314,7 @@ func TestC14Sequential(t *testing.T) {
 		runC14History(r, hr, i)
 	}
 	// overlapping instances (a restart that overlaps, a second machine)
-	for i := 0; i < pick(24, 400); i++ {
+	for i := 0; i < pick(60, 400); i++ {
 		hr := rng.Fork(fmt.Sprint("overlap", i))
 		if !mine(i) {
 			continue
@@ -463,7 +463,7 @@ func TestC14Concurrent(t *testing.T) {
 	r := NewRun(t, "C14", "concurrent")
 	r.Rule = "8-24 goroutines race add-checkpoint requests for the main chain and for forks from the same recorded size, rounds repeated as the record advances, with injected lock Replace failures (applied / not applied), public upload failures and restarts; oracle: at most one 200 per recorded size, every 200's checkpoint is in the lock store at that instant, all recorded checkpoints lie on one ground-truth chain, non-200 answers are protocol answers; also under the race detector; distinct = (fault kind, statuses seen per round)"
 	rng := NewRng(r.Seed, "c14c")
-	n := pick(24, 400)
+	n := pick(60, 400)
 	if raceEnabled {
 		n = pick(8, 60)
 	}
